@@ -132,6 +132,7 @@ func (r *Runner) Run() int {
 		pool.CrossKinds = []string{"z3", "cvc5"}
 	}
 	pool.Primary = envOr("VERIF_SOLVER", "z3-new")
+	pool.ValWant = 2
 	r.Prog.CrossEvery = 40
 	pool.Profile = os.Getenv("VERIF_PROFILE") != ""
 	results := pool.Run(specs)
@@ -285,6 +286,50 @@ func (r *Runner) Run() int {
 			}
 		}
 	}
+	// executor-vs-compiler validation: a few completed paths per harness are
+	// rerun natively on a model of their path condition; the native run must be
+	// clean and must evaluate the same assertions / observe the same values.
+	validated, valMismatch := 0, 0
+	if !r.NoReplay && os.Getenv("VERIF_NOVALIDATE") == "" {
+		type vjob struct {
+			h  *Harness
+			sp *sym.HarnessSpec
+			vs *sym.ValSample
+		}
+		var jobs []vjob
+		for _, res := range results {
+			h := specHarness[res.Spec]
+			for i, vs := range res.ValSamples {
+				if i < 2 {
+					jobs = append(jobs, vjob{h, res.Spec, vs})
+				}
+			}
+		}
+		type vres struct {
+			j   vjob
+			msg string
+		}
+		out := make(chan vres, len(jobs))
+		sem := make(chan struct{}, 8)
+		for _, j := range jobs {
+			go func(j vjob) {
+				sem <- struct{}{}
+				defer func() { <-sem }()
+				out <- vres{j, r.validate(j.h, j.sp, j.vs)}
+			}(j)
+		}
+		for range jobs {
+			v := <-out
+			validated++
+			if v.msg != "" {
+				valMismatch++
+				msg := fmt.Sprintf("%s: executor and compiled code disagree on a completed path: %s; inputs=%s", v.j.sp.Name, v.msg, compactJSON(v.j.vs.Inputs))
+				inconclusive = append(inconclusive, msg)
+				fmt.Printf("INCONCLUSIVE property=%s %s\n", c.ID, msg)
+			}
+		}
+		replayed += validated
+	}
 	wall := time.Since(t0)
 	// evidence
 	type fe struct {
@@ -326,16 +371,18 @@ func (r *Runner) Run() int {
 		"queries": map[string]interface{}{"solver_calls": stats.Queries, "sat": stats.SatN, "unsat": stats.UnsatN, "unknown": stats.UnknownN,
 			"error": stats.Errors, "cross_checked": stats.CrossChecked, "disagreements": stats.Disagreements,
 			"decided_by_byte_domain_propagation": sumDom(results), "cache_hits": sumCache(results)},
-		"solver_s":           float64(stats.SolverNS) / 1e9,
-		"load_ssa_s":         r.LoadTime.Seconds(),
-		"stubs":              c.Stubs,
-		"vacuity_witnesses":  vacuity,
-		"inconclusive":       inconclusive,
-		"known_findings_hit": knownHit,
-		"recovered_panics":   recKeys,
-		"if_converted":       sumMerged(results),
-		"exhaustive":         len(inconclusive) == 0,
-		"explanation":        "states = feasible complete paths of the real SSA explored symbolically; transitions = branch/assert/panic-guard decisions (SMT queries + decisions settled by exact per-byte domain propagation)",
+		"solver_s":                 float64(stats.SolverNS) / 1e9,
+		"load_ssa_s":               r.LoadTime.Seconds(),
+		"stubs":                    c.Stubs,
+		"vacuity_witnesses":        vacuity,
+		"paths_validated_natively": validated,
+		"validation_mismatches":    valMismatch,
+		"inconclusive":             inconclusive,
+		"known_findings_hit":       knownHit,
+		"recovered_panics":         recKeys,
+		"if_converted":             sumMerged(results),
+		"exhaustive":               len(inconclusive) == 0,
+		"explanation":              "states = feasible complete paths of the real SSA explored symbolically; transitions = branch/assert/panic-guard decisions (SMT queries + decisions settled by exact per-byte domain propagation)",
 	}
 	nz := func(a []string) []string {
 		if a == nil {
@@ -471,6 +518,50 @@ func (r *Runner) replay(h *Harness, sp *sym.HarnessSpec, v *sym.Violation, path 
 	return "not-reproduced", strings.Join(outcomes, "; ") + tail(out, 300)
 }
 
+// validate reruns a completed path natively and compares what was evaluated.
+func (r *Runner) validate(h *Harness, sp *sym.HarnessSpec, vs *sym.ValSample) string {
+	tmp, err := os.MkdirTemp("", "gosmt-val-")
+	if err != nil {
+		return ""
+	}
+	defer os.RemoveAll(tmp)
+	rf := replayFile{Property: r.Check.ID, Harness: h.Func, Pkg: h.Pkg, Label: "validation", Params: sp.Params, Inputs: vs.Inputs}
+	b, _ := json.Marshal(rf)
+	vec := filepath.Join(tmp, "vector.json")
+	os.WriteFile(vec, b, 0o644)
+	out, _ := runNative(r.Repo, r.Verif, h.Pkg, h.Func, vec)
+	if !strings.Contains(out, "VERIF-REPLAY outcome=clean") {
+		return "native run not clean:" + tail(out, 300)
+	}
+	var asserts, obs []string
+	for _, l := range strings.Split(out, "\n") {
+		if strings.HasPrefix(l, "VERIF-ASSERTS ") {
+			if a := strings.TrimPrefix(l, "VERIF-ASSERTS "); a != "" {
+				asserts = strings.Split(a, ",")
+			}
+		}
+		if strings.HasPrefix(l, "VERIF-OBS ") {
+			obs = append(obs, strings.TrimPrefix(l, "VERIF-OBS "))
+		}
+	}
+	if h.Sched {
+		return "" // assertion order and count depend on the native scheduler
+	}
+	want := append([]string(nil), vs.Asserts...)
+	sort.Strings(want)
+	sort.Strings(asserts)
+	if strings.Join(want, ",") != strings.Join(asserts, ",") {
+		return fmt.Sprintf("assertions evaluated differ: executor %d, native %d", len(want), len(asserts))
+	}
+	wo := append([]string(nil), vs.Obs...)
+	sort.Strings(wo)
+	sort.Strings(obs)
+	if strings.Join(wo, "|") != strings.Join(obs, "|") {
+		return fmt.Sprintf("observed values differ: executor %v native %v", wo, obs)
+	}
+	return ""
+}
+
 func firstLineWith(s, sub string) string {
 	for _, l := range strings.Split(s, "\n") {
 		if strings.Contains(l, sub) {
@@ -543,7 +634,7 @@ func runNative(repo, verif, pkg, fn, vector string) (string, error) {
 	stateImport, stateFailures := "", ""
 	if pkg == "client" {
 		stateImport = "\n\t\"github.com/fluffle/goirc/state\"\n"
-		stateFailures = "vFailures = append(vFailures, state.VFailures()...)"
+		stateFailures = "vFailures = append(vFailures, state.VFailures()...)\n\tvAssertLog = append(vAssertLog, state.VAssertLog()...)\n\tvObsLog = append(vObsLog, state.VObsLog()...)"
 	}
 	testSrc := fmt.Sprintf(`//go:build verif
 
@@ -551,6 +642,7 @@ package %s
 
 import (
 	"fmt"
+	"strings"
 	"testing"
 %s)
 
@@ -569,6 +661,10 @@ func TestVerifReplay(t *testing.T) {
 		return
 	}
 	%s
+	fmt.Printf("VERIF-ASSERTS %%s\n", strings.Join(vAssertLog, ","))
+	for _, o := range vObsLog {
+		fmt.Printf("VERIF-OBS %%s\n", o)
+	}
 	for _, f := range vFailures {
 		fmt.Printf("VERIF-REPLAY outcome=assert:%%s\n", f)
 	}
